@@ -182,7 +182,9 @@ def inj_dup_ref(rng, d, forms=None):
 
 def inj_empty_table(rng, d):
     t = am.Table(rng.choice(['public', 'sx']), f'tempty{rng.randrange(10**6)}')
-    how = rng.choice(['bare', 'note', 'alias'])
+    how = rng.choice(['bare', 'note', 'alias', 'settings'])
+    if how == 'settings':
+        t.header_color = '#abc'
     if how == 'note':
         t.note = 'only a note'
     if how == 'alias':
@@ -330,8 +332,10 @@ def run_shard(spec, tier, seed, budget_s):
                 sh.case(text, nontrivial=len(host.tables) > 1 or bool(host.refs),
                         sample={'rule': rule, 'expect': want, 'features': feats, 'text': text[:1000]})
                 sh.count('obs.cases.' + rule)
-                db, err = parse(text)
-                case = {'kind': 'reject', 'text': text, 'expect': want, 'rule': rule}
+                props = rng.random() < 0.4          # the rules do not depend on the option
+                db, err = parse(text, allow_properties=props)
+                sh.count('obs.option.' + ('on' if props else 'off'))
+                case = {'kind': 'reject', 'text': text, 'expect': want, 'rule': rule, 'props': props}
                 sub = rule + (':' + feats['forms'] if 'forms' in feats else '')
                 if err is None:
                     sh.violation('accept', f'accepted:{sub}', f'rule {rule} ({feats}): document was accepted', case, feats)
@@ -360,7 +364,7 @@ def conclusive(agg, tier):
 def replay(v):
     sh = Shard(ID)
     case = v['case']
-    db, err = parse(case['text'])
+    db, err = parse(case['text'], allow_properties=case.get('props', False))
     if err is None:
         sh.violation('accept', v['klass'], 'document is (still) accepted', case, v.get('features'))
     elif type(err).__name__ != case['expect']:
